@@ -60,7 +60,9 @@ RULE = (
     "trailing slash, or as package resources 'pkg:dir'; false settings are spelled 'false' or left out; version_locations may be "
     "the empty string; prepend_sys_path in every separator spelling.  One setting per tree also runs Script._from_path on every "
     "file of the tree.  Deterministic batteries: prepend_sys_path x helper import, load_python_file/pyc_file_from_path over all "
-    "16 presence combinations of (source, __pycache__, .pyc, .pyo), configurations that must be refused loudly"
+    "16 presence combinations of (source, __pycache__, .pyc, .pyo), configurations that must be refused loudly, version locations "
+    "that are textual prefixes of one another (v1/v10/v1_ext, sub/sub2) or a symlinked sub-directory of another location, in every order.  "
+    "Random trees use the sibling-prefix directory family va/va_ext/va2 in 40 % of the cases"
 )
 ASSUMPTIONS = [
     "file and directory names contain no newline; no dangling symlinks; no sub-directories inside __pycache__; no file named like '.py'/'..pyc' (only leading dots before the suffix: os.path.splitext finds no extension and load_python_file asserts)",
@@ -219,6 +221,10 @@ def plan_features(plan):
         feats.append("location nested in another location")
     if len(set(locs)) < len(locs):
         feats.append("same location listed twice")
+    if any(a != b and a.startswith(b) and not a.startswith(b + "/") for a in locs for b in locs):
+        feats.append("sibling locations sharing a textual prefix")
+    if any(l["dir"] and l["path"] in locs and not l["path"].startswith("alias") for l in plan["links"]):
+        feats.append("location = symlinked sub-directory inside a tree")
     if any(l.startswith("alias") for l in locs):
         feats.append("location reached through a symlink")
     if "missing_dir" in locs:
@@ -526,6 +532,28 @@ def stream_forms(ctx):
     ctx.exhaustive = True
 
 
+def stream_prefix_locations(ctx):
+    """Deterministic battery: version locations whose paths are textual prefixes of one another without being
+    nested (v1 / v10 / v1_ext, v1/sub / v1/sub2), genuinely nested ones, and a location that is a symlinked
+    sub-directory of another location (os.walk does not descend into it) - every order, all four settings."""
+    def f(path, rev):
+        return {"path": path, "kind": "src", "content": {"rev": rev}}
+
+    plan0 = {"dirs": ["scripts", "v1", "v10", "v1_ext", "v1/sub", "v1/sub2", "v10/deep", "vx"],
+             "files": [f("v1/a1.py", "q1"), f("v10/b2.py", "q2"), f("v1_ext/c3.py", "q3"), f("v1/sub/d4.py", "q4"),
+                       f("v1/sub2/e5.py", "q5"), f("v10/deep/f6.py", "q6"), f("vx/g7.py", "q7")],
+             "links": [{"path": "v1/lsub", "target": "vx", "dir": True}]}
+    pending = []
+    for k, locs in enumerate((["v1", "v10"], ["v10", "v1"], ["v1", "v1_ext", "v10"], ["v1_ext", "v1"], ["v1/sub", "v1/sub2"],
+                              ["v1/sub2", "v1/sub"], ["v1", "v1/lsub"], ["v1/lsub", "v1"], ["v1", "v1/sub"], ["v1/sub", "v1", "v10"])):
+        plan = {**plan0, "locations": locs}
+        seps = [None, "os", "newline", "space"]
+        run_tree(ctx, plan, [{"sourceless": sl, "recursive": rec, "sep": seps[(k + i) % 4], "jseed": k,
+                              "delivery": "ini" if (k + i) % 3 == 0 else "api", "here": True}
+                             for i, (sl, rec) in enumerate(((False, False), (False, True), (True, False), (True, True)))], pending)
+    flush(ctx, pending)
+
+
 def stream_prepend(ctx, n):
     """`_split_on_space_comma_colon` (prepend_sys_path) vs the model, on strings"""
     rng = ctx.rng("prepend")
@@ -700,6 +728,7 @@ def run(ctx):
     stream_config_errors(ctx)
     stream_loadfile(ctx)
     stream_prepend_trees(ctx)
+    stream_prefix_locations(ctx)
     stream_forms(ctx)
     stream_trees(ctx, 9000 if ctx.thorough else 220)
 
